@@ -38,6 +38,7 @@ if MODEL:
         if positive:
             for e in es:
                 ctx().assume(e > 0)
+                ca._POSITIVE.add(e.decl().name())
         return ca.DM._raw(n, m, es)
 
 else:
